@@ -137,6 +137,20 @@ func Mutate(w *Wire, recipe string, n int) {
 		if n%2 == 0 {
 			w.ContentType = "application/x-protobuf"
 		}
+	case "otlp-sparse":
+		// OTLP traces whose optional members are absent: a ResourceSpans without resource, an attribute without value,
+		// a span without ids
+		td := &otlpTrace.TracesData{ResourceSpans: []*otlpTrace.ResourceSpans{{ScopeSpans: []*otlpTrace.ScopeSpans{{Spans: []*otlpTrace.Span{{
+			TraceId: []byte("0123456789abcdef"), SpanId: []byte("01234567"), Name: "sparse", StartTimeUnixNano: 1, EndTimeUnixNano: 2}}}}}}}
+		switch n % 3 {
+		case 1:
+			td.ResourceSpans[0].Resource = &otlpRes.Resource{Attributes: []*otlpCommon.KeyValue{{Key: "service.name"}, {Key: "peer.service"}}}
+		case 2:
+			td.ResourceSpans[0].Resource = &otlpRes.Resource{}
+			td.ResourceSpans[0].ScopeSpans[0].Spans[0].TraceId, td.ResourceSpans[0].ScopeSpans[0].Spans[0].SpanId = nil, nil
+		}
+		w.Body, _ = proto.Marshal(td)
+		w.Path, w.ContentType = "/v1/traces", "application/x-protobuf"
 	case "gzip-header":
 		w.Encoding = "gzip"
 	case "snappy-header":
@@ -254,6 +268,11 @@ func Encode(req int, op Op, nowNs int64) *Wire {
 						x.Line = x.Tag + " both"
 						x.Type = 0
 						vals = append(vals, []any{strconv.FormatInt(ee.ts, 10), x.Line, ee.val})
+					} else if (si+ei)%5 == 3 {
+						// Loki's structured metadata: an object as third element; the entry stays a log line
+						vals = append(vals, []any{strconv.FormatInt(ee.ts, 10), ee.line, map[string]string{"trace_id": "abc", "n": "1"}})
+					} else if (si+ei)%5 == 4 {
+						vals = append(vals, []any{strconv.FormatInt(ee.ts, 10), ee.line, nil})
 					} else {
 						vals = append(vals, []any{strconv.FormatInt(ee.ts, 10), ee.line})
 					}
@@ -422,6 +441,15 @@ func Encode(req int, op Op, nowNs int64) *Wire {
 						tags = append(tags, kv[0]+":"+kv[1])
 						exp[kv[0]] = kv[1]
 					}
+				}
+				// tag names and values may carry more than letters: - . / \ (and : in values), names start with any letter
+				switch si % 3 {
+				case 1:
+					tags = append(tags, `dir\tmp:c:\x`)
+					exp[`dir\tmp`] = `c:\x`
+				case 2:
+					tags = append(tags, `a-b.c/d:v_1/2`, `ünï:wert`)
+					exp[`a-b.c/d`], exp[`ünï`] = `v_1/2`, `wert`
 				}
 				m["ddtags"] = strings.Join(tags, ",")
 				x.Labels, x.LabelKey = exp, labelKey(exp)
@@ -653,7 +681,19 @@ func Encode(req int, op Op, nowNs int64) *Wire {
 				if ei%2 == 1 {
 					action = "create"
 				}
-				fmt.Fprintf(&b, "{\"%s\":{\"_index\":\"idx%d\"}}\n%s\n", action, si, x.Line)
+				// every string member of the action object is a label of the document, its name taken as it is
+				exp := map[string]string{"type": "elastic", "_index": fmt.Sprintf("idx%d", si)}
+				extra := ""
+				switch si % 3 {
+				case 1:
+					extra = `,"pipe\"line":"p1","routing":"r\\1"`
+					exp[`pipe"line`], exp["routing"] = "p1", `r\1`
+				case 2:
+					extra = `,"dir\\tmp":"x","n":7,"ü":"ö"`
+					exp[`dir\tmp`], exp["ü"] = "x", "ö"
+				}
+				fmt.Fprintf(&b, "{\"%s\":{\"_index\":\"idx%d\"%s}}\n%s\n", action, si, extra, x.Line)
+				x.Labels, x.LabelKey = exp, labelKey(exp)
 				w.Rows = append(w.Rows, x)
 			}
 		}
